@@ -19,6 +19,7 @@ import (
 	"fmt"
 	"strconv"
 	"strings"
+	"time"
 
 	"github.com/seaweedfs/fuse"
 	"github.com/seaweedfs/fuse/fs"
@@ -36,6 +37,36 @@ func (f *fake) Attr(ctx context.Context, a *fuse.Attr) error { return nil }
 var tr *hx.Trace
 var cache *filesys.FsCache
 
+// Every call into FsCache runs under a watchdog: a panic becomes the output token `panic`
+// (hx.Guard), a call that does not return within opTimeout becomes `hang` (a corrupted tree can
+// leave a childrenLock locked or make deleteSelf wait on itself). After a hang the cache of the
+// current case is unusable (its mutex may be held by the stuck goroutine): the remaining calls of
+// the case answer `hang` without being executed. After maxHangs hangs the generator stops, so that
+// the trace still reaches the driver.
+const opTimeout = 2 * time.Second
+const maxHangs = 4
+
+var dead bool
+var hangs int
+
+func watch(f func() []string) []string {
+	if dead {
+		return []string{"hang"}
+	}
+	done := make(chan []string, 1)
+	go func() { done <- hx.Guard(f) }()
+	select {
+	case outs := <-done:
+		return outs
+	case <-time.After(opTimeout):
+		dead = true
+		hangs++
+		return []string{"hang"}
+	}
+}
+
+func giveUp() bool { return hangs >= maxHangs }
+
 func idOf(n fs.Node) string {
 	if n == nil {
 		return "nil"
@@ -51,32 +82,33 @@ func idOf(n fs.Node) string {
 
 func reset() {
 	cache = filesys.NewFsCacheVerif(nil)
+	dead = false
 	tr.Op("reset", nil, nil)
 }
 
 func set(p string, id int) {
-	tr.Op("set", []string{p, strconv.Itoa(id)}, hx.Guard(func() []string {
+	tr.Op("set", []string{p, strconv.Itoa(id)}, watch(func() []string {
 		cache.SetFsNode(util.FullPath(p), &fake{id})
 		return nil
 	}))
 }
 
 func ensure(p string, id int) {
-	tr.Op("ensure", []string{p, strconv.Itoa(id)}, hx.Guard(func() []string {
+	tr.Op("ensure", []string{p, strconv.Itoa(id)}, watch(func() []string {
 		n := cache.EnsureFsNode(util.FullPath(p), func() fs.Node { return &fake{id} })
 		return []string{idOf(n)}
 	}))
 }
 
 func del(p string) {
-	tr.Op("del", []string{p}, hx.Guard(func() []string {
+	tr.Op("del", []string{p}, watch(func() []string {
 		cache.DeleteFsNode(util.FullPath(p))
 		return nil
 	}))
 }
 
 func move(o, n string) {
-	tr.Op("move", []string{o, n}, hx.Guard(func() []string {
+	tr.Op("move", []string{o, n}, watch(func() []string {
 		if o == "/" || n == "/" || o == "" || n == "" {
 			return []string{"invalid"}
 		}
@@ -88,7 +120,7 @@ func move(o, n string) {
 }
 
 func get(p string) {
-	tr.Op("get", []string{p}, hx.Guard(func() []string {
+	tr.Op("get", []string{p}, watch(func() []string {
 		return []string{idOf(cache.GetFsNode(util.FullPath(p)))}
 	}))
 }
@@ -221,6 +253,9 @@ func main() {
 		sweep(deep)
 	}
 	rec = func(seq []op) {
+		if giveUp() {
+			return
+		}
 		if len(seq) == L {
 			runSeq(seq)
 			return
@@ -243,7 +278,7 @@ func main() {
 		return "/" + strings.Join(parts, "/")
 	}
 	var present []string
-	for c := 0; c < a.N(40); c++ {
+	for c := 0; c < a.N(40) && !giveUp(); c++ {
 		reset()
 		present = present[:0]
 		steps := 10 + r.Intn(30)
